@@ -204,6 +204,7 @@ def run_property(prop, tier, seed, args, t0):
             bounded_cov.append({k: br[k] for k in br if k != "violations"})
 
     wall = time.time() - t0
+    n_known_obl = len(set(n for _, n in known_hits if not n.startswith("bounded:")))
     for kf, name in sorted(set((json.dumps(k, sort_keys=True), n) for k, n in known_hits)):
         kfd = json.loads(kf)
         print(f"KNOWN-FINDING: property={prop} {kfd['what']} [{name}]")
@@ -227,7 +228,9 @@ def run_property(prop, tier, seed, args, t0):
             "property_id": prop, "tier": tier, "seed": seed, "level": level, "wall_s": round(wall, 2),
             "violations": len(violations),
             "coverage": {
-                "obligations": n_obl, "discharged": n_dis,
+                # obligations in force = all generated obligations minus those whose violation is a listed known finding
+                "obligations": n_obl - n_known_obl, "discharged": n_dis,
+                "obligations_generated": n_obl, "known_finding_obligations": n_known_obl,
                 "checker_cmd": f"./check {prop} --tier {tier}",
                 "trusted_base": sorted(optable_used) + sorted(f"summary:{s}" for s in summaries),
                 "explanation": _explanation(prop, n_obl, n_dis, undecided, bounded_cov),
